@@ -10,6 +10,7 @@
 #include <cstddef>
 #include <cstdio>
 #include <iterator>
+#include <memory>
 #include <string>
 #include <type_traits>
 
@@ -188,9 +189,168 @@ run (const char *type)
     }
 }
 
+// --- allocators with class-type ("fancy") pointers: the iterators wrap that pointer type, and
+//     their comparison operators take other overloads (a fancy pointer with the six classic
+//     comparisons but no operator<=> reaches the synthesised three-way fall-back in C++20).
+//     Checked by index only: for a = begin()+i, b = begin()+j every operator must agree with the
+//     integers i and j.
+template <class T, bool Spaceship>
+class fancy_ptr
+{
+public:
+  typedef T                                               element_type;
+  typedef std::ptrdiff_t                                  difference_type;
+  typedef typename std::remove_cv<T>::type                value_type;
+  typedef T                                              *pointer;
+  typedef typename std::add_lvalue_reference<T>::type     reference;
+  typedef std::random_access_iterator_tag                 iterator_category;
+#if defined (__cpp_lib_concepts) && __cpp_lib_concepts >= 201907L
+  typedef std::contiguous_iterator_tag                    iterator_concept;
+#endif
+  template <class U> using rebind = fancy_ptr<U, Spaceship>; // (non-type parameter: no default rebind)
+
+  fancy_ptr (void) = default;
+  fancy_ptr (std::nullptr_t) noexcept : m_p (nullptr) { }
+  fancy_ptr (T *p) noexcept : m_p (p) { }
+  template <class U, typename std::enable_if<std::is_convertible<U *, T *>::value
+                                             && ! std::is_same<U, T>::value, int>::type = 0>
+  fancy_ptr (const fancy_ptr<U, Spaceship>& o) noexcept : m_p (o.get ()) { }
+  template <class U, typename std::enable_if<std::is_void<U>::value && ! std::is_void<T>::value
+                                             && (std::is_const<T>::value || ! std::is_const<U>::value),
+                                             long>::type = 0>
+  explicit fancy_ptr (const fancy_ptr<U, Spaceship>& o) noexcept : m_p (static_cast<T *> (o.get ())) { }
+
+  template <class U = T, typename std::enable_if<! std::is_void<U>::value, int>::type = 0>
+  static fancy_ptr pointer_to (U& r) noexcept { return fancy_ptr (std::addressof (r)); }
+
+  T *get (void) const noexcept { return m_p; }
+  reference operator* (void) const noexcept { return *m_p; }
+  pointer operator-> (void) const noexcept { return m_p; }
+  reference operator[] (difference_type n) const noexcept { return m_p[n]; }
+  fancy_ptr& operator++ (void) noexcept { ++m_p; return *this; }
+  fancy_ptr& operator-- (void) noexcept { --m_p; return *this; }
+  fancy_ptr operator++ (int) noexcept { fancy_ptr r (*this); ++m_p; return r; }
+  fancy_ptr operator-- (int) noexcept { fancy_ptr r (*this); --m_p; return r; }
+  fancy_ptr& operator+= (difference_type n) noexcept { m_p += n; return *this; }
+  fancy_ptr& operator-= (difference_type n) noexcept { m_p -= n; return *this; }
+  friend fancy_ptr operator+ (fancy_ptr p, difference_type n) noexcept { return fancy_ptr (p.m_p + n); }
+  friend fancy_ptr operator+ (difference_type n, fancy_ptr p) noexcept { return fancy_ptr (p.m_p + n); }
+  friend fancy_ptr operator- (fancy_ptr p, difference_type n) noexcept { return fancy_ptr (p.m_p - n); }
+  friend difference_type operator- (fancy_ptr l, fancy_ptr r) noexcept { return l.m_p - r.m_p; }
+  friend bool operator== (fancy_ptr l, fancy_ptr r) noexcept { return l.m_p == r.m_p; }
+  friend bool operator!= (fancy_ptr l, fancy_ptr r) noexcept { return l.m_p != r.m_p; }
+  friend bool operator< (fancy_ptr l, fancy_ptr r) noexcept { return l.m_p < r.m_p; }
+  friend bool operator> (fancy_ptr l, fancy_ptr r) noexcept { return l.m_p > r.m_p; }
+  friend bool operator<= (fancy_ptr l, fancy_ptr r) noexcept { return l.m_p <= r.m_p; }
+  friend bool operator>= (fancy_ptr l, fancy_ptr r) noexcept { return l.m_p >= r.m_p; }
+#if defined (__cpp_impl_three_way_comparison) && __cpp_impl_three_way_comparison >= 201907L
+  template <bool S = Spaceship, typename std::enable_if<S, int>::type = 0>
+  friend std::strong_ordering operator<=> (fancy_ptr l, fancy_ptr r) noexcept { return l.m_p <=> r.m_p; }
+#endif
+
+private:
+  T *m_p;
+};
+
+template <class T, bool Spaceship>
+struct fancy_allocator
+{
+  typedef T                         value_type;
+  typedef fancy_ptr<T, Spaceship>   pointer;
+  template <class U> struct rebind { typedef fancy_allocator<U, Spaceship> other; };
+  fancy_allocator (void) = default;
+  template <class U> fancy_allocator (const fancy_allocator<U, Spaceship>&) noexcept { }
+  pointer allocate (std::size_t n) { return pointer (std::allocator<T> ().allocate (n)); }
+  void deallocate (pointer p, std::size_t n) noexcept { std::allocator<T> ().deallocate (p.get (), n); }
+  template <class U> bool operator== (const fancy_allocator<U, Spaceship>&) const noexcept { return true; }
+  template <class U> bool operator!= (const fancy_allocator<U, Spaceship>&) const noexcept { return false; }
+};
+
+template <class It, class It2>
+static void
+by_index (const char *type, unsigned N, std::size_t size, It first, It2 first2, const char *combo)
+{
+  const long n = static_cast<long> (size);
+  for (long i = 0; i <= n; ++i)
+    for (long j = 0; j <= n; ++j)
+    {
+      const It a = first + i;
+      const It2 b = first2 + j;
+      ++cases;
+      const bool ok = (a == b) == (i == j) && (a != b) == (i != j) && (a < b) == (i < j)
+                   && (a <= b) == (i <= j) && (a > b) == (i > j) && (a >= b) == (i >= j)
+                   && (b < a) == (j < i) && (b <= a) == (j <= i) && (b > a) == (j > i)
+                   && (b >= a) == (j >= i) && (b - a) == (j - i) && (a - b) == (i - j);
+      if (! ok)
+        fail (combo, type, N, size, i, j);
+#if defined (__cpp_impl_three_way_comparison) && __cpp_impl_three_way_comparison >= 201907L
+      ++cases;
+      if (((a <=> b) < 0) != (i < j) || ((a <=> b) > 0) != (i > j) || ((a <=> b) == 0) != (i == j))
+        fail ("<=> (fancy pointer)", type, N, size, i, j);
+#endif
+    }
+}
+
+template <bool Spaceship, unsigned N>
+static void
+run_fancy (const char *type)
+{
+  typedef gch::small_vector<int, N, fancy_allocator<int, Spaceship> > V;
+  typedef typename V::iterator I;
+  typedef typename V::const_iterator CI;
+  for (std::size_t size = 0; size <= 6; ++size)
+    for (int heap = 0; heap < 2; ++heap)
+    {
+      V v;
+      if (heap)
+        v.reserve (N + 9);
+      for (std::size_t k = 0; k < size; ++k)
+        v.push_back (static_cast<int> (100 + k));
+      const V& cv = v;
+      by_index (type, N, size, v.begin (), v.begin (), "iterator x iterator (fancy pointer)");
+      by_index (type, N, size, cv.begin (), cv.begin (), "const_iterator x const_iterator (fancy pointer)");
+      by_index (type, N, size, v.begin (), cv.begin (), "iterator x const_iterator (fancy pointer)");
+      by_index (type, N, size, cv.begin (), v.begin (), "const_iterator x iterator (fancy pointer)");
+      const long n = static_cast<long> (size);
+      for (long i = 0; i < n; ++i)
+      {
+        const long j = 0;
+        I t = v.begin () + i;
+        ++cases;
+        if (*t != 100 + i || v.begin ()[i] != 100 + i || *(t.operator-> ()) != 100 + i)
+          fail ("* / [] / -> (fancy pointer)", type, N, size, i, j);
+        I r = t++;
+        ++cases;
+        if (r - v.begin () != i || t - v.begin () != i + 1)
+          fail ("it++ (fancy pointer)", type, N, size, i, j);
+        r = t--;
+        ++cases;
+        if (r - v.begin () != i + 1 || t - v.begin () != i)
+          fail ("it-- (fancy pointer)", type, N, size, i, j);
+        CI c = t;
+        ++cases;
+        if (c - cv.begin () != i || (c += (n - i)) != cv.end () || (c -= n) != cv.begin ())
+          fail ("const_iterator += / -= (fancy pointer)", type, N, size, i, j);
+      }
+      ++cases;
+      long cnt = 0;
+      for (I it = v.end (); it > v.begin (); --it)
+        ++cnt;
+      if (cnt != n)
+      {
+        const long i = cnt, j = n;
+        fail ("backwards loop with > (fancy pointer)", type, N, size, i, j);
+      }
+    }
+}
+
 int
 main (void)
 {
+  run_fancy<false, 0> ("int, fancy pointer without <=>"); run_fancy<false, 3> ("int, fancy pointer without <=>");
+#if defined (__cpp_impl_three_way_comparison) && __cpp_impl_three_way_comparison >= 201907L
+  run_fancy<true, 0> ("int, fancy pointer with <=>"); run_fancy<true, 3> ("int, fancy pointer with <=>");
+#endif
   run<int, 0> ("int"); run<int, 3> ("int"); run<int, 8> ("int");
   run<std::string, 0> ("std::string"); run<std::string, 3> ("std::string"); run<std::string, 8> ("std::string");
   std::printf ("ITER cases=%lu failures=%lu\n", cases, failures);
